@@ -12,19 +12,30 @@ VARIABLES ci, bad
 vars == <<ci, bad>>
 
 FirstX(p) == LET S == {i \in DOMAIN p : p[i] = "X"} IN IF S = {} THEN 0 ELSE CHOOSE i \in S : \A k \in S : i <= k
+IsTransient(c) == "transient" \in DOMAIN c /\ c.transient
+(* signature of the clauses: "" for stationary series, "transient" for transient ones (their `logged` / `standalone` digests cover the *)
+(* hydraulic results only: pressures and mass flows of a constant-property liquid do not depend on the evolving temperatures)           *)
+Sig(c, x) == IF IsTransient(c) THEN "transient" ELSE x
 CaseClauses(c) ==
     LET p == c.profile
         fx == FirstX(p)
         mustAbort == fx # 0 /\ ~c.cod
-    IN (IF mustAbort /\ ~c.raised THEN {<<"C13.no_abort_without_continue", "">>} ELSE {})
+    IN (IF mustAbort /\ ~c.raised THEN {<<"C13.no_abort_without_continue", Sig(c, "")>>} ELSE {})
        \cup (IF ~mustAbort /\ c.raised THEN {<<"C13.aborted", c.exc>>} ELSE {})
-       \cup {<<"C13.step_differs_from_standalone", p[i]>> : i \in {i \in DOMAIN p :
+       \cup {<<"C13.step_differs_from_standalone", Sig(c, p[i])>> : i \in {i \in DOMAIN p :
                  (~mustAbort \/ i < fx) /\ ~c.raised /\ p[i] # "X" /\ c.steps[i].logged # c.steps[i].standalone}}
-       \cup {<<"C13.step_differs_from_standalone", p[i]>> : i \in {i \in DOMAIN p :
+       \cup {<<"C13.step_differs_from_standalone", Sig(c, p[i])>> : i \in {i \in DOMAIN p :
                  mustAbort /\ i < fx /\ c.steps[i].logged # c.steps[i].standalone}}
-       \cup {<<"C13.diverged_step_not_reported", "">> : i \in {i \in DOMAIN p :
+       \cup {<<"C13.diverged_step_not_reported", Sig(c, "")>> : i \in {i \in DOMAIN p :
                  ~c.raised /\ p[i] = "X" /\ ~c.steps[i].flagged}}      \* the output writer's failure flag of that step
-       \cup {<<"C13.feasible_step_flagged", p[i]>> : i \in {i \in DOMAIN p : ~c.raised /\ p[i] # "X" /\ c.steps[i].flagged}}
+       \cup {<<"C13.feasible_step_flagged", Sig(c, p[i])>> : i \in {i \in DOMAIN p : ~c.raised /\ p[i] # "X" /\ c.steps[i].flagged}}
+       (* MC_TS.InvPrefix on the code: the series over the profile without its last step logged the same first steps (hydraulic and thermal) *)
+       \cup {<<"C13.step_depends_on_later_steps", Sig(c, p[i])>> : i \in {i \in DOMAIN p :
+                 IsTransient(c) /\ ~c.raised /\ c.steps[i].pre_hyd # "none" /\ (\A k \in 1..i : p[k] # "X")
+                 /\ (c.steps[i].pre_hyd # c.steps[i].logged \/ c.steps[i].pre_th # c.steps[i].th)}}
+       (* MC_TS.InvHydRepeat: equal inputs, equal hydraulic results within one series *)
+       \cup {<<"C13.equal_inputs_differ", Sig(c, p[i])>> : i \in {i \in DOMAIN p : ~c.raised /\ p[i] # "X" /\
+                 \E k \in DOMAIN p : k < i /\ p[k] = p[i] /\ (~mustAbort \/ i < fx) /\ c.steps[k].logged # c.steps[i].logged}}
 
 Init == ci = 0 /\ bad = {}
 Step == /\ ci < Len(Cases) /\ ci' = ci + 1
